@@ -174,7 +174,7 @@ struct ConcRun {
     std::string key_digest(void* key) { std::vector<uint8_t> b = marshal_digest(JV_OK_WK_SK, key); return sha_hex(b.data(), b.size(), 12); }
 
     void run() {
-        if (!g_modules_protected && !R.info.sanitized) {
+        if (!g_modules_protected && !R.info.sanitized && !getenv("JV_REPLICA_FLAVOUR")) {   // (coverage builds write their counters into the image)
             // static initialisers (dispatch table, Fp<>::one) have run at dlopen; from here on the replicas' image is read-only
             for (auto rp : env.reps->all) { if (!rp->handle) continue; bool tls = false; rp->apply_dispatch(); g_protected_bytes += trap_protect_module(rp->path().c_str(), ("replica " + rp->label + " writable image (static storage)").c_str(), tls); if (tls) g_tls_modules += rp->label + " "; }
             g_modules_protected = true;
